@@ -1,6 +1,6 @@
 // hc04: cache transparency on the REAL staticcheck binary.
 //
-// A generated module (leaf <- mid <- target, plus rng and test files) is driven through histories built from the
+// A generated module (leaf <- mid <- target, far (imports only mid), rng, test files) is driven through histories built from the
 // edit alphabet of property C04; after every step `staticcheck -f json` is run twice with identical arguments and
 // environment: once with the history's persistent STATICCHECK_CACHE (warm) and once with a fresh directory (cold).
 // All runs set GODEBUG=gocachehash=1, so the real inputs of every cache key are on stderr; they are parsed and
@@ -115,7 +115,9 @@ const modPath = "example.com/m"
 
 func (s State) files() []srcFile {
 	var fs []srcFile
-	dep := ""
+	// comment-only AND line-preserving: the compiled package (object code, export data, positions) is identical
+	// in both variants, so dependents see the change only through leaf's fact file
+	dep := "//\n// No longer discouraged: keep using it.\n"
 	if s.LeafDeprecated {
 		dep = "//\n// Deprecated: use something else.\n"
 	}
@@ -169,6 +171,9 @@ func (s State) files() []srcFile {
 	if s.HTTP {
 		fs = append(fs, srcFile{Rel: "target/http.go", Tag: "httpx", Content: "//go:build httpx\n\npackage target\n\nimport \"net/http\"\n\nfunc handler(w http.ResponseWriter, r *http.Request) {\n\thttp.Error(w, \"teapot\", 418)\n\thttp.Error(w, \"ok\", 200)\n}\n\nvar _ = handler\n"})
 	}
+	// far: sees leaf's objects only through mid (does not import leaf): when leaf changes without changing its
+	// export data, far's inputs change ONLY through mid's fact file (the vetx chain)
+	fs = append(fs, srcFile{Rel: "far/far.go", Content: "package far\n\nimport \"" + modPath + "/mid\"\n\nfunc Use() {\n\tprintln(mid.Make().Old())\n\tif mid.Wrap() == nil {\n\t\tprintln(\"nil\")\n\t}\n\tmid.Calc(3)\n}\n"})
 	// rng: compiles only with language version >= go1.22
 	fs = append(fs, srcFile{Rel: "rng/rng.go", Content: "package rng\n\nimport \"" + modPath + "/leaf\"\n\nfunc Count() int {\n\tn := leaf.Legacy()\n\tfor i := range 3 {\n\t\tn += i\n\t}\n\treturn n\n}\n"})
 	fs = append(fs, srcFile{Rel: "go.mod", Content: "module " + modPath + "\n\ngo " + s.GoDirective + "\n"})
@@ -441,7 +446,7 @@ func dimsOf(hdir string, s State, pkg string) map[string]string {
 func observeKeys(hdir string, s State, stderr string) []KeyObs {
 	hs := parseHashes(stderr)
 	var out []KeyObs
-	for _, pkg := range []string{"leaf", "mid", "target", "rng"} {
+	for _, pkg := range []string{"leaf", "mid", "target", "rng", "far"} {
 		path := modPath + "/" + pkg
 		ab, pb := hs["staticcheck "+path], hs["package "+path]
 		if len(ab) != 1 || len(pb) != 1 {
@@ -597,6 +602,8 @@ func flippers(thorough bool) []flipper {
 		{"GOOS", nil, func(s *State) { s.GOOS = "windows" }},
 		{"Tests", nil, func(s *State) { s.Tests = true }},
 		{"FlagChecks", nil, func(s *State) { s.Checks = "SA1019" }},
+		{"FlagChecks:widen", func(s *State) { s.Checks = "SA1019" }, func(s *State) { s.Checks = "" }},
+		{"Cfg:Checks:widen", func(s *State) { s.Conf["target"] = Conf{Present: true, Checks: `"SA4017"`} }, func(s *State) { delete(s.Conf, "target") }},
 		{"Cfg:Checks:root", nil, func(s *State) { s.Conf["root"] = Conf{Present: true, Checks: `"inherit", "-SA1019"`} }},
 		{"Cfg:Checks:target", nil, func(s *State) { s.Conf["target"] = Conf{Present: true, Checks: `"SA4017"`} }},
 		{"Cfg:Checks:parent", nil, func(s *State) { s.Conf["parent"] = Conf{Present: true, Checks: `"all", "-SA4023"`} }},
